@@ -18,6 +18,10 @@ def parsePClaims (t : String) : Option (Option PClaims × Bool) :=
   let iss : Option (Nat × Bool) := match C02.get m "iss" with
     | none => none
     | some v => if v.startsWith "w" then (v.drop 1).toString.toNat?.map (fun n => (1000 + n, false))
+                -- a DID URL of a DID (fragment / query / path): a URL that is not a DID
+                else if v.startsWith "f" then (v.drop 1).toString.toNat?.map (fun n => (2000 + n, false))
+                else if v.startsWith "q" then (v.drop 1).toString.toNat?.map (fun n => (3000 + n, false))
+                else if v.startsWith "p" then (v.drop 1).toString.toNat?.map (fun n => (4000 + n, false))
                 else v.toNat?.map (fun n => (n, true))
   match C07.oint m "exp", iss, C07.oint m "iat", C07.oint m "nbf", C07.onat m "jti", C07.onat m "aud", C07.onat m "vid",
     C07.onat m "vholder", C07.onat m "cust" with
